@@ -33,14 +33,17 @@ type c01Replica struct {
 	MapSeed uint64 `json:"map"`
 	ClockS  int64  `json:"clock"`          // seconds added to the epoch
 	StepMs  int64  `json:"step,omitempty"` // every GetTime() call advances the clock by this much
-	Warm    int    `json:"warm,omitempty"` // 0 cold boot, 1 seeded first-touch reads, 2 execute-and-discard first
+	Warm    int    `json:"warm,omitempty"` // 0 cold boot, 1 seeded first-touch reads, 2 execute-and-discard first, 3 execute a competing block of the same height first
 }
 
 type c01Plan struct {
 	Seed     uint64        `json:"seed"`
 	Forks    string        `json:"forks"`
-	Miners   int           `json:"miners"` // miners registered by the setup block
+	Miners   int           `json:"miners"`           // miners registered by the setup block
+	Shared   int           `json:"shared,omitempty"` // + this many proposers registered in the setup block under ONE reward account
+	Jump     uint64        `json:"jump,omitempty"`   // height slots skipped by the block under test (miners applied in the setup count from apply height + 300)
 	Txs      []node.TxSpec `json:"txs"`
+	Alt      []node.TxSpec `json:"alt,omitempty"` // a DIFFERENT block of the same height (replicas with warm=3 execute it first)
 	QN       uint64        `json:"qn"`
 	PV       int64         `json:"pv"`
 	Castor   int           `json:"castor"`
@@ -65,11 +68,11 @@ func (c01) Budget(tier string) runner.Budget {
 
 func (c01) Describe() runner.Description {
 	return runner.Description{
-		Rule: "each plan: a fixed funded parent state (2 setup blocks: funding transfers, 3 contracts, 0-2 miners) plus one seeded test block of 1..25 transactions of every executor type (operator transfers with 1-4 JSON targets incl. the source itself, the same address in different letter case, duplicate keys, zero/fractional/>18-decimal/negative/huge/malformed amounts, amounts exhausting the balance part-way; miner apply/add-stake/refund/change-account valid and invalid; contract create/call (native type and the wrapped-Ethereum type 188 form, nonce in sequence / too low / too high) of programs that SSTORE, LOG, move value, REVERT, self-destruct, burn all gas; repeated and out-of-order nonces). The block is executed by R=4 (quick) / 8 (thorough) replica incarnations differing in seeded map-iteration order, wall clock (epoch, per-call drift), cold boot from the parent's disk image vs warm node with seeded first-touch reads or an executed-and-discarded block; state root, evicted list, executed list and every receipt (status, result text, logs, gas, contract address) must be byte-identical. Then a proposer incarnation casts the block through the pool and a differently seeded incarnation must accept it. distinct_nontrivial = distinct (tx-kind multiset, outcome vector) pairs of blocks with >=2 transactions or a multi-target transfer.",
+		Rule:        "each plan: a fixed funded parent state (2 setup blocks: funding transfers, 3 contracts, 0-2 miners) plus one seeded test block of 1..25 transactions of every executor type (operator transfers with 1-4 JSON targets incl. the source itself, the same address in different letter case, duplicate keys, zero/fractional/>18-decimal/negative/huge/malformed amounts, amounts exhausting the balance part-way; miner apply/add-stake/refund/change-account valid and invalid; contract create/call (native type and the wrapped-Ethereum type 188 form, nonce in sequence / too low / too high) of programs that SSTORE, LOG, move value, REVERT, self-destruct, burn all gas; repeated and out-of-order nonces; add-stake to the genesis proposers; 15% proposer-heavy blocks). In 40% of the plans the block under test skips 300..420 height slots so that miners registered by the setup (optionally 3-5 proposers sharing ONE reward account) are counted in the reward step; half of the plans carry a competing block of the same height that moves proposer stakes. The block is executed by R=4 (quick) / 8 (thorough) replica incarnations differing in seeded map-iteration order, wall clock (epoch, per-call drift), cold boot from the parent's disk image vs warm node with seeded first-touch reads or an executed-and-discarded block vs a fresh incarnation whose only history is the competing block of the same height; state root, evicted list, executed list and every receipt (status, result text, logs, gas, contract address) must be byte-identical. Then a proposer incarnation casts the block through the pool and a differently seeded incarnation must accept it. distinct_nontrivial = distinct (tx-kind multiset, outcome vector) pairs of blocks with >=2 transactions or a multi-target transfer.",
 		Assumptions: []string{"replicas are sequential incarnations in one process (singletons): process-local caches are reset the way a fresh process starts", "fork configuration fixed per plan (latestsync or devlike)"},
 		Real:        []string{"core/vmexecutor + all executors", "service (ChangeAssets, miner/refund/reward managers, tx pool)", "storage/account + trie", "vm (EVM)", "core cast/verify/add path"},
 		Stub:        []string{"ConsensusHelper", "network", "NTP clock (simulated)"},
-		FaultKinds:  []string{"map_order_seed", "clock_epoch_shift", "clock_drift_per_call", "cold_boot_replica", "warm_touch_order", "warm_discarded_block"},
+		FaultKinds:  []string{"map_order_seed", "clock_epoch_shift", "clock_drift_per_call", "cold_boot_replica", "warm_touch_order", "warm_discarded_block", "warm_competing_block_same_height"},
 	}
 }
 
@@ -116,6 +119,9 @@ func c01GenTx(r *simrt.Rand, i int, nonces map[int]uint64) node.TxSpec {
 	case x < 62:
 		s.K = "addstake"
 		s.Miner = r.Intn(4)
+		if r.Chance(0.3) {
+			s.Miner = 100 + r.Intn(2)
+		}
 		s.Stake = uint64(r.Range(0, 600))
 	case x < 70:
 		s.K = "refund"
@@ -174,12 +180,54 @@ func (c01) Gen(seed uint64, tier string) json.RawMessage {
 	for i := 0; i < n; i++ {
 		p.Txs = append(p.Txs, c01GenTx(r, i, nonces))
 	}
+	if r.Chance(0.15) {
+		// proposer-heavy block: several applies of proposer type naming ONE reward account (accepted within
+		// one block), different stakes - the end-of-block reward step then pays one account several shares
+		acct := r.Range(1, 4)
+		ids := r.Perm(8)
+		for j, c := 0, r.Range(3, 6); j < c; j++ {
+			s := node.TxSpec{K: "apply", From: r.Intn(4), Miner: ids[j], MType: 1, Stake: uint64(2000 + 100*r.Intn(40)), Acct: acct, Salt: fmt.Sprintf("ph%d", j)}
+			s.Nonce = nonces[s.From]
+			nonces[s.From]++
+			at := r.Intn(len(p.Txs) + 1)
+			p.Txs = append(p.Txs[:at], append([]node.TxSpec{s}, p.Txs[at:]...)...)
+		}
+	}
+	if r.Chance(0.4) {
+		p.Jump = uint64(r.Range(300, 420))
+		if r.Chance(0.5) {
+			p.Shared = r.Range(3, 5)
+		}
+	}
+	if r.Chance(0.5) {
+		// a competing block of the same height that moves proposer stakes
+		an := map[int]uint64{}
+		for j, c := 0, r.Range(1, 4); j < c; j++ {
+			s := node.TxSpec{From: r.Intn(8), Salt: fmt.Sprintf("alt%d", j)}
+			switch r.Intn(4) {
+			case 0:
+				s.K, s.Miner, s.MType, s.Stake, s.Acct = "apply", r.Intn(8), 1, uint64(2000+100*r.Intn(30)), r.Intn(5)
+				s.From = r.Intn(4)
+			case 1:
+				s.K, s.Miner, s.Stake = "addstake", []int{100, 101, 1, r.Intn(4)}[r.Intn(4)], uint64(r.Range(1, 900))
+				s.From = r.Intn(4)
+			case 2:
+				s.K, s.Miner, s.Amount = "refund", r.Intn(4), []string{"100", "400", "1000"}[r.Intn(3)]
+				s.From = 4 + s.Miner%4
+			default:
+				s = c01GenTx(r, 1000+j, an)
+			}
+			s.Nonce = an[s.From]
+			an[s.From]++
+			p.Alt = append(p.Alt, s)
+		}
+	}
 	R := 4
 	if tier == "thorough" {
 		R = 8
 	}
 	for i := 0; i < R; i++ {
-		rep := c01Replica{MapSeed: r.U64() | 1, ClockS: int64(r.Intn(100000000)), Warm: r.Intn(3)}
+		rep := c01Replica{MapSeed: r.U64() | 1, ClockS: int64(r.Intn(100000000)), Warm: r.Intn(4)}
 		if i == 0 {
 			rep = c01Replica{MapSeed: 0, Warm: 0} // canonical order, cold
 		}
@@ -239,6 +287,10 @@ func c01Setup(p *c01Plan) (*simdisk.Disk, *types.BlockHeader, []string, [8]uint6
 		}
 		txs2 = append(txs2, node.TxSpec{K: "apply", From: 4 + m, Miner: m, MType: byte(m), Stake: st, Salt: fmt.Sprintf("setupm%d", m)}.Build())
 	}
+	for j := 0; j < p.Shared; j++ {
+		// several proposers whose rewards go to one account (accepted because they arrive in one block)
+		txs2 = append(txs2, node.TxSpec{K: "apply", From: j % 4, Miner: 10 + j, MType: 1, Stake: uint64(2000 + 370*j + 10*(int(p.Seed%7))), Acct: 4, Salt: fmt.Sprintf("setups%d", j)}.Build())
+	}
 	must(c01Cast(n, node.BlockSpec{QN: 1, PV: 1, TimeMs: 2000, Txs: txs2}, 2))
 	var nonces [8]uint64
 	if state, err := middleware.AccountDBManagerInstance.GetAccountDBByHash(n.Chain.TopBlock().StateTree); err == nil {
@@ -266,16 +318,17 @@ func c01Cast(n *node.Node, spec node.BlockSpec, seed uint64) (*types.Block, erro
 }
 
 type c01Outcome struct {
-	root     string
-	evicted  []string
-	executed []string
-	receipts []string // json per receipt
-	kinds    []int32
-	ethOK    int
-	ethFail  int
+	root               string
+	evicted            []string
+	executed           []string
+	receipts           []string // json per receipt
+	kinds              []int32
+	ethOK              int
+	ethFail            int
+	applyOK, applyFail int
 }
 
-func c01Exec(n *node.Node, parent *types.BlockHeader, hdr types.BlockHeader, txs []*types.Transaction, rep c01Replica, seed uint64) c01Outcome {
+func c01Exec(n *node.Node, parent *types.BlockHeader, hdr types.BlockHeader, txs, altTxs []*types.Transaction, rep c01Replica, seed uint64) c01Outcome {
 	simmap.Seed = rep.MapSeed
 	base := node.EpochTime.Add(time.Duration(rep.ClockS) * time.Second)
 	if rep.StepMs > 0 {
@@ -316,6 +369,16 @@ func c01Exec(n *node.Node, parent *types.BlockHeader, hdr types.BlockHeader, txs
 		other, _ := mgr.GetAccountDBByHash(parent.StateTree)
 		h := hdr
 		core.SimExecuteBlock(other, &types.Block{Header: &h, Transactions: cp()}, "fullverify")
+	case 3: // this process has executed a DIFFERENT block of the same height before (a competing proposal)
+		other, _ := mgr.GetAccountDBByHash(parent.StateTree)
+		h := hdr
+		h.ProveValue = bigFrom(hdr.ProveValue.Int64() + 17)
+		alt := make([]*types.Transaction, len(altTxs))
+		for i, t := range altTxs {
+			c := *t
+			alt[i] = &c
+		}
+		core.SimExecuteBlock(other, &types.Block{Header: &h, Transactions: alt}, "fullverify")
 	}
 	h := hdr
 	root, evicted, exec, receipts := core.SimExecuteBlock(state, &types.Block{Header: &h, Transactions: cp()}, "fullverify")
@@ -328,6 +391,13 @@ func c01Exec(n *node.Node, parent *types.BlockHeader, hdr types.BlockHeader, txs
 		o.kinds = append(o.kinds, t.Type)
 	}
 	for i, rc := range receipts {
+		if i < len(exec) && exec[i].Type == types.TransactionTypeMinerApply {
+			if rc.Status == types.ReceiptStatusSuccessful {
+				o.applyOK++
+			} else {
+				o.applyFail++
+			}
+		}
 		if i < len(exec) && exec[i].Type == types.TransactionTypeETHTX {
 			if rc.Status == types.ReceiptStatusSuccessful {
 				o.ethOK++
@@ -401,46 +471,52 @@ func (c01) Exec(raw json.RawMessage, st *simrt.Stats, log *simrt.Log) *simrt.Vio
 	}
 	defer func() { simmap.Seed = 0; utility.SimClock = nil }()
 	image, parent, contracts, baseNonce := c01Setup(&p)
-	ethSeq := map[int]uint64{} // wrapped-form transactions placed so far per sender (each bumps the nonce when it runs)
 	forks := node.Forks(p.Forks)
-	var txs []*types.Transaction
 	multi := false
 	kinds := map[string]int{}
-	for _, s := range p.Txs {
-		if strings.HasPrefix(s.To, "#") {
-			var k int
-			fmt.Sscanf(s.To, "#%d", &k)
-			s.To = contracts[k%len(contracts)]
-		}
-		for ti, tg := range s.Targets {
-			if strings.HasPrefix(tg.A, "#") {
+	resolve := func(specs []node.TxSpec) []*types.Transaction {
+		ethSeq := map[int]uint64{}
+		var txs []*types.Transaction
+		for _, s := range specs {
+			if strings.HasPrefix(s.To, "#") {
 				var k int
-				fmt.Sscanf(tg.A, "#%d", &k)
-				s.Targets = append([]node.Target{}, s.Targets...)
-				s.Targets[ti].A = contracts[k%len(contracts)]
+				fmt.Sscanf(s.To, "#%d", &k)
+				s.To = contracts[k%len(contracts)]
 			}
-		}
-		if len(s.Targets) > 1 {
-			multi = true
-		}
-		kinds[s.K]++
-		f := ((s.From % 8) + 8) % 8
-		if s.Eth {
-			want := int64(baseNonce[f]+ethSeq[f]) + int64(s.NDelta)
-			if want < 0 {
-				want = 0
+			for ti, tg := range s.Targets {
+				if strings.HasPrefix(tg.A, "#") {
+					var k int
+					fmt.Sscanf(tg.A, "#%d", &k)
+					s.Targets = append([]node.Target{}, s.Targets...)
+					s.Targets[ti].A = contracts[k%len(contracts)]
+				}
 			}
-			s.Nonce = uint64(want)
-			kinds["eth"+s.K]++
+			if len(s.Targets) > 1 {
+				multi = true
+			}
+			kinds[s.K]++
+			f := ((s.From % 8) + 8) % 8
+			if s.Eth {
+				want := int64(baseNonce[f]+ethSeq[f]) + int64(s.NDelta)
+				if want < 0 {
+					want = 0
+				}
+				s.Nonce = uint64(want)
+				kinds["eth"+s.K]++
+			}
+			if (s.K == "create" || s.K == "call") && s.NDelta == 0 {
+				ethSeq[f]++ // a contract transaction that runs bumps the sender's nonce
+			}
+			txs = append(txs, s.Build())
 		}
-		if (s.K == "create" || s.K == "call") && s.NDelta == 0 {
-			ethSeq[f]++ // a contract transaction that runs bumps the sender's nonce
-		}
-		txs = append(txs, s.Build())
+		return txs
 	}
+	altTxs := resolve(p.Alt)
+	multi, kinds = false, map[string]int{}
+	txs := resolve(p.Txs)
 	// the list the executor is given: in the node's own total order
 	zone := time.FixedZone("sim", p.ZoneH*3600)
-	hdr := types.BlockHeader{Height: parent.Height + 1, PreHash: parent.Hash, PreTime: parent.CurTime, ProveValue: bigFrom(p.PV), TotalQN: parent.TotalQN + p.QN,
+	hdr := types.BlockHeader{Height: parent.Height + 1 + p.Jump, PreHash: parent.Hash, PreTime: parent.CurTime, ProveValue: bigFrom(p.PV), TotalQN: parent.TotalQN + p.QN,
 		CurTime: node.EpochTime.Add(time.Duration(p.TimeMs) * time.Millisecond).In(zone), Castor: common.FromHex(node.Castors[p.Castor%2]), RequestIds: map[string]uint64{}}
 	{
 		n0 := node.Boot(image.Clone(), forks, false)
@@ -452,16 +528,25 @@ func (c01) Exec(raw json.RawMessage, st *simrt.Stats, log *simrt.Log) *simrt.Vio
 	for i, rep := range p.Replicas {
 		st.Ops++
 		var n *node.Node
-		if rep.Warm == 0 || live == nil {
+		if rep.Warm == 0 || rep.Warm == 3 || live == nil {
 			n = node.Boot(image.Clone(), forks, false)
 			live = n
-			st.Fault("cold_boot_replica")
+			if rep.Warm == 3 {
+				// a fresh process whose only history is the competing block (a process that has already
+				// executed THIS block would mask a per-height cache with the right content)
+				st.Fault("warm_competing_block_same_height")
+			} else {
+				st.Fault("cold_boot_replica")
+			}
 		} else {
 			n = live
-			if rep.Warm == 1 {
+			switch rep.Warm {
+			case 1:
 				st.Fault("warm_touch_order")
-			} else {
+			case 2:
 				st.Fault("warm_discarded_block")
+			default:
+				st.Fault("warm_competing_block_same_height")
 			}
 		}
 		if rep.MapSeed != 0 {
@@ -473,10 +558,15 @@ func (c01) Exec(raw json.RawMessage, st *simrt.Stats, log *simrt.Log) *simrt.Vio
 		if rep.StepMs != 0 {
 			st.Fault("clock_drift_per_call")
 		}
-		o := c01Exec(n, parent, hdr, txs, rep, p.Seed)
+		o := c01Exec(n, parent, hdr, txs, altTxs, rep, p.Seed)
 		log.Add("replica %d map=%x warm=%d clock=%d step=%d root=%s receipts=%d evicted=%d", i, rep.MapSeed, rep.Warm, rep.ClockS, rep.StepMs, o.root[:10], len(o.receipts), len(o.evicted))
 		if i == 0 {
 			first = o
+			st.ProbeN("miner_apply_ok", int64(o.applyOK))
+			st.ProbeN("miner_apply_failed", int64(o.applyFail))
+			if o.applyOK >= 3 {
+				st.Probe("blocks_with_3_or_more_accepted_applies")
+			}
 			st.ProbeN("wrapped_eth_tx_ok", int64(o.ethOK))
 			st.ProbeN("wrapped_eth_tx_failed", int64(o.ethFail))
 			continue
@@ -494,7 +584,7 @@ func (c01) Exec(raw json.RawMessage, st *simrt.Stats, log *simrt.Log) *simrt.Vio
 		c := *t
 		cp = append(cp, &c)
 	}
-	blk, err := c01Cast(prop, node.BlockSpec{QN: p.QN, PV: p.PV, Castor: p.Castor, TimeMs: p.TimeMs, Txs: cp}, p.Seed)
+	blk, err := c01Cast(prop, node.BlockSpec{QN: p.QN, PV: p.PV, Castor: p.Castor, TimeMs: p.TimeMs, Skip: p.Jump, Txs: cp}, p.Seed)
 	if err != nil {
 		return simrt.Violationf("C01", "proposer-cannot-cast", "cast", len(p.Replicas), "%v", err)
 	}
